@@ -36,6 +36,28 @@ CONTEXTS = [
     ('in_array_literal', lambda b: [b]),
     ('in_doc_literal', lambda b: {'k': b}),
     ('concat_arrays_operand', lambda b: {'$concatArrays': [[1], b]}),
+    # argument shapes the evaluator took as constants (or did not evaluate) before the repairs
+    # fce7e55 (an array in expression position evaluates its items), 9ff1475 / f32e005 / e7bd52b
+    # (one argument given without / as a one-item list), 9957044 (a $let variable bound to a
+    # missing value); every one of them is loud since - kept as guards
+    ('not_single', lambda b: {'$not': b}),
+    ('add_single', lambda b: {'$add': b}),
+    ('and_single', lambda b: {'$and': b}),
+    ('or_single', lambda b: {'$or': b}),
+    ('concat_single', lambda b: {'$concat': b}),
+    ('setunion_single', lambda b: {'$setUnion': b}),
+    ('sum_single', lambda b: {'$sum': b}),
+    ('max_single', lambda b: {'$max': b}),
+    ('unary_one_item_list', lambda b: {'$abs': [b]}),
+    ('unary_plain', lambda b: {'$abs': b}),
+    ('nested_array_literal', lambda b: [[b]]),
+    ('array_in_doc_literal', lambda b: {'k': [b]}),
+    ('array_operand_item', lambda b: {'$concatArrays': [[b]]}),
+    ('in_haystack_item', lambda b: {'$in': [1, [b]]}),
+    ('size_of_literal', lambda b: {'$size': [[b]]}),
+    ('let_missing_var', lambda b: {'$let': {'vars': {'v': '$nope'}, 'in': b}}),
+    ('let_var_after_missing', lambda b: {'$let': {'vars': {'u': '$nope', 'v': b}, 'in': 1}}),
+    ('array_path_operand', lambda b: {'$eq': ['$arr1.x', b]}),
 ]
 HOSTS = ['project', 'addFields', 'expr', 'groupId']
 
